@@ -53,4 +53,25 @@ def parseC2S : Nat → Bytes → Option (List C2SMsg)
     let ms ← parseC2S fuel rest
     pure (m :: ms)
 
+/-- the stream parser with enough fuel for any stream (every message is at least 4 bytes) -/
+def parseStream (bs : Bytes) : Option (List C2SMsg) := parseC2S (bs.length + 1) bs
+
+/-- RFC 6143 §7.5 byte layout of one message (an encoder for the same grammar, used to state round trips) -/
+def encodeC2S : C2SMsg → Bytes
+  | .setPixelFormat pf => [0, 0, 0, 0] ++ pf
+  | .setEncodings es => [2, 0] ++ enc16 es.length ++ es.flatMap encS32
+  | .updateRequest inc x y w h => [3, byteOf inc] ++ enc16 x ++ enc16 y ++ enc16 w ++ enc16 h
+  | .keyEvent down key => [4, byteOf down, 0, 0] ++ enc32 key
+  | .pointerEvent mask x y => [5, byteOf mask] ++ enc16 x ++ enc16 y
+  | .cutText t => [6, 0, 0, 0] ++ enc32 t.length ++ t
+
+/-- field ranges of a well-formed message -/
+def C2SMsg.WF : C2SMsg → Prop
+  | .setPixelFormat pf => pf.length = 16
+  | .setEncodings es => es.length < 65536 ∧ ∀ e ∈ es, -2147483648 ≤ e ∧ e < 2147483648
+  | .updateRequest inc x y w h => inc < 256 ∧ x < 65536 ∧ y < 65536 ∧ w < 65536 ∧ h < 65536
+  | .keyEvent down key => down < 256 ∧ key < 4294967296
+  | .pointerEvent mask x y => mask < 256 ∧ x < 65536 ∧ y < 65536
+  | .cutText t => t.length < 4294967296
+
 end Vnc
